@@ -71,6 +71,25 @@ def main():
           'which is stale once public.py has moved the class, and client.Sub is left with an unresolved base.')
     for name, a, b in diffs:
         print(f'  {name}:\n     {" ".join(order1)} -> {a}\n     {" ".join(order2)} -> {b}')
+
+    # Same thing with one root: only the alphabetical position of the re-exporting module changes.
+    def single_root(reexporter):
+        import json
+        files = {'top/__init__.py': ''}
+        for rel, src in FILES.items():
+            rel = rel.replace('public', reexporter)
+            files['top/' + rel] = src.replace('from impl ', 'from .impl ').replace('from compat ', 'from .compat ')
+        d = Path(tempfile.mkdtemp(prefix='c06_demo2_', dir=tmp))
+        for rel, src in files.items():
+            (d / rel).parent.mkdir(parents=True, exist_ok=True)
+            (d / rel).write_text(src)
+        return json.loads(json.dumps(document(files, [d / 'top'])).replace(f'top.{reexporter}', 'top.REEXPORTER'))
+    early, late = single_root('api'), single_root('public')
+    print('Single root "top" (client.py, compat.py, impl.py) with the re-exporting module named api.py (analysed before '
+          'compat.py) or public.py (analysed after it):')
+    for k in sorted(set(early) | set(late)):
+        if early.get(k) != late.get(k):
+            print(f'  {k}:\n     re-exporter = api    -> {early.get(k)}\n     re-exporter = public -> {late.get(k)}')
     return 1
 
 if __name__ == '__main__':
